@@ -38,6 +38,8 @@ CLAIMS = {
          "Every operation through ended handles is tried at every state of the bounded model; the real result classes and all other readers' reads are compared with the promise. The recorded defect (late writes accepted) is modelled as the named deviation 'latewrite'.", "6 C13"),
  "C14": ("TLC invariant Reclaimed on FsDb.tla + replay of behaviours ending in quiescence with a walk of the storage roots",
          "At every quiescent state (no open transaction, pool drained, one collector pass, or clean reopen) the real roots must hold exactly one content file per readable key.", "6 C14"),
+ "C16": ("TLC safety (each job at most once, no panic, no start after Stop, Stop waits for jobs, no stranded job) and liveness on WPool.tla (effects silent, observations = gate arrivals); real pool executions under the controlled scheduler judged by counters and goroutine states and validated by TLC against WPoolTrace.tla; TLC counterexample schedules replayed",
+         "Ten scenarios (deferred path with 1-2 workers, Stop against direct and deferred Sends, concurrent Stops, Stop/Run/Send, Send and Stop before Run, double Run) run under all schedules up to a preemption bound plus random ones; every recorded sequence of gate arrivals must be a behaviour of the specification with TLC placing the unobservable effects.", "6 C16"),
  "C17": ("TLC invariants on Dirs.tla (bounded counts, every root offers a directory, room is reused) with a limit of 2 + recorded walks of the storage roots of long random histories validated by TLC against DirsTrace.tla with the real limit",
          "After every API call of histories with hundreds to thousands of writes/deletes/collections/reopenings over 1-3 roots the tree is walked; TLC decides which directories may be created and offered and infers the random choice of directory from the walk.", "6 C17"),
  "C18": ("TLC invariants on VersionList.tla (binary search transcribed branch for branch = declarative last-below; collect rule; mirror = list) + replay of every emitted behaviour on the real core.Transaction",
